@@ -1,6 +1,35 @@
 """C04: names follow lexical block scope; closures capture their defining scope."""
 import interpcheck
 
+# every loop form: the loop variable shadows and does not leak, names created in the body do not leak,
+# var in the body shadows - expected results known by construction
+LOOPS = [
+    ("for x in [1, 2, 3]", ""), ("for x in {\"k\": 7}", ""), ("for k, x in {\"k\": 7}", ""), ("for x = 0; x < 2; x++", ""),
+    ("for x in c", "c = make(chan int64, 3); c <- 1; c <- 2; c <- 3; close(c); "), ("for x, = <-c; false;", None),
+]
+
+
+def product():
+    out = []
+    for head, pre in LOOPS:
+        if pre is None:
+            continue
+        name = head[:22]
+        cfor = head.startswith("for x = 0")     # its init is a plain assignment: it reaches an existing binding by design
+        if not cfor:
+            out.append({"src": pre + "x = 10; " + head + " { }; x", "field": "result", "want": "i:10", "why": "the loop variable of `%s` shadows an outer name of the same spelling" % name})
+        out.append({"src": pre + head + " { }; r = \"gone\"; try { r = x } catch e { }; r", "field": "result", "want": "s:676f6e65",
+                    "why": "the loop variable of `%s` is not visible after the loop" % name})
+        out.append({"src": pre + head + " { fresh = 1 }; r = \"gone\"; try { r = fresh } catch e { }; r", "field": "result", "want": "s:676f6e65",
+                    "why": "a name created by assignment in the body of `%s` is not visible after the loop" % name})
+        out.append({"src": pre + "y = 10; " + head + " { var y = 99 }; y", "field": "result", "want": "i:10", "why": "var in the body of `%s` shadows" % name})
+        out.append({"src": pre + "y = 10; " + head + " { y = 99 }; y", "field": "result", "want": "i:99", "why": "plain assignment in the body of `%s` reaches the enclosing binding" % name})
+        if not cfor:
+            out.append({"src": pre + "func f(x) { " + head + " { }; return x }; f(5)", "field": "result", "want": "i:5",
+                        "why": "the loop variable of `%s` does not overwrite a parameter" % name})
+    return out
+
+
 def run(tier, seed, replay=None):
     return interpcheck.run_interp_check(
         "C04", "c04", ("result", "trace", "bindings"), {"quick": 6000, "thorough": 150000}, tier, seed,
@@ -9,4 +38,4 @@ def run(tier, seed, replay=None):
              "of the shadowed names after the exit and at top level (2888 programs), then random scope-stress programs over the "
              "name pool {a,b,c,x}; compared: probe trace, final top-level bindings, result / error class; "
              "non-trivial = distinct source whose trace is not empty",
-        design_ref="DESIGN.md §4 C04")
+        design_ref="DESIGN.md §4 C04", expectations=product())
